@@ -41,3 +41,12 @@ open Pandora.C14 Pandora.Interp
 #print axioms Pandora.C14Kernels.findValidNeighbors_generated_eq_table
 #print axioms Pandora.C14Kernels.findValidNeighbors_generated_eq
 #print axioms Pandora.C14Kernels.occlusionSgm_generated_eq
+#print axioms Pandora.C14Kernels.sumBand2_eq
+#print axioms Pandora.C14Kernels.mismatchSgm_generated_eq
+#print axioms Pandora.C14Kernels.rowMask_eq
+#print axioms Pandora.C14Kernels.occlusionMcCnn_generated_eq
+#print axioms Pandora.C14Kernels.truncRat_half
+#print axioms Pandora.C14Kernels.forLoop_scanLoop
+#print axioms Pandora.C14Kernels.mcDirs_half
+#print axioms Pandora.C14Kernels.mismatchMcCnn_generated_eq
+#print axioms Pandora.C14Kernels.nodataSgm_generated_eq
